@@ -259,6 +259,17 @@ class CoroutineProcessor(Processor):
                 self._promises[gen].value = exception.value
                 del self._promises[gen]
                 continue        # Do not rotate if last item was popped
+            except BaseException:
+                # The coroutine is over (e.g. it asked to switch world,
+                # which works by raising). Drop it and bring the sentinel
+                # back to the front, so that the next call finds the
+                # queue as an ordinary call would have left it
+                gen = self._active_queue.popleft()
+                del self._generators[gen]
+                self._kill_queue.discard(gen)
+                del self._promises[gen]
+                self._active_queue.rotate(-self._active_queue.index(None))
+                raise
 
             # Put in wait queue if requested
             if wait is not None and wait > 0:
